@@ -724,6 +724,37 @@ func (r *c15Runner) exec(o *Oracle) string {
 	if !treasuryTouched {
 		o.Check(dt.Cmp(fees) == 0, "treasury-not-credited-with-fees", "treasury +%s, receipts report fees %s", dt, fees)
 	}
+	// blocks in which every transaction either failed or is a successful plain transfer are fully
+	// determined by the receipts: failed -> only the fee moves, success -> fee and value move
+	{
+		exact := true
+		exp := make([]*big.Int, len(before.bal))
+		for a := range exp {
+			exp[a] = new(big.Int).Set(before.bal[a])
+		}
+		for j, tx := range txs {
+			fee := new(big.Int).Mul(infos[j].used, infos[j].rprice)
+			exp[tx.from].Sub(exp[tx.from], fee)
+			exp[c15Treasury].Add(exp[c15Treasury], fee)
+			if infos[j].status == 0 {
+				if tx.kind == "c" {
+					exact = false
+					break
+				}
+				exp[tx.from].Sub(exp[tx.from], tx.value)
+				exp[tx.to].Add(exp[tx.to], tx.value)
+			}
+		}
+		if exact && len(txs) > 0 {
+			o.Count("block-exactly-accounted")
+			for a := range exp {
+				o.Check(exp[a].Cmp(after.bal[a]) == 0, "balances-not-explained-by-receipts",
+					"account %d: %s after the block, receipts (failed: fee only; transfer: fee+value) explain %s", a, after.bal[a], exp[a])
+			}
+			o.Check(strings.Join(after.stor, ",") == strings.Join(before.stor, ","), "storage-changed-without-successful-call",
+				"storage %v -> %v although no call succeeded", before.stor, after.stor)
+		}
+	}
 	if len(txs) == 1 {
 		// exact per-transaction accounting
 		tx, info := txs[0], infos[0]
